@@ -1,6 +1,7 @@
 """C16 — query response metadata names each query's real response type."""
 import json
 
+from .. import types as T
 from ..spec import KINDS_ENUM, handlers
 
 
@@ -29,26 +30,27 @@ def check_prog(ctx, r, prog):
             continue
         table = o["res"]["ok"]
         qs = list(handlers(prog, kind="query", part=part["id"]))
-        exp_names = sorted(h["name"] for h in qs)
+        exp_names = sorted(T.wire_name(h["name"]) for h in qs)
         detail = {"prog": pn, "part": part["id"], "table_keys": sorted(table), "queries": exp_names}
         if sorted(table) != exp_names:
             ctx.violate("part-keys", f"{pn}: part {part['id']} response table has keys {sorted(table)} but its queries are {exp_names}", detail)
         for h in qs:
             ctx.ev()
-            if h["name"] not in table:
+            wn = T.wire_name(h["name"])
+            if wn not in table:
                 continue
             exp = schema_of(h["resp_ti"])
-            if table[h["name"]] != exp:
+            if table[wn] != exp:
                 ctx.violate("part-schema", f"{pn}: {h['hid']} is declared to return {prog['types'][h['resp_ti']].rust} but the table carries schema `{table[h['name']].get('title')}`",
-                            dict(detail, handler=h["hid"], expected=exp, observed=table[h["name"]]))
-            union[h["name"]] = exp
+                            dict(detail, handler=h["hid"], expected=exp, observed=table[wn]))
+            union[wn] = exp
             ctx.count("queries_with_explicit_resp" if h.get("resp_explicit") else "queries_with_inferred_resp")
             sibs = [h2 for h2 in qs if h2 is not h and h2["resp_ti"] != h["resp_ti"]]
             if sibs:
                 ctx.nontrivial([pn, h["hid"], prog["types"][h["resp_ti"]].rust])
             if len(ctx.samples) < 4 and sibs:
                 ctx.sample({"program": pn, "query": h["hid"], "declared_response": prog["types"][h["resp_ti"]].rust,
-                            "table_schema_title": table[h["name"]].get("title")})
+                            "table_schema_title": table[wn].get("title")})
     o = r.call({"prog": pn, "op": "schemas:w"})
     ctx.ev()
     if "panic" in o:
